@@ -320,3 +320,5 @@ J('bitutil.CopyBits32.contract', 'h_enf_CopyBits32', ['C17'], enforce='CopyBits3
 for f in ['remaining_size', 'bit_decoder_active', 'Advance']:
     J('decbuf.%s.contract' % f, 'h_enf_DecoderBuffer_' + f, ['C17', 'C02'], enforce='DecoderBuffer_' + f)
 J('encbuf.EncodeBytes.contract', 'h_enf_EncoderBuffer_EncodeBytes', ['C17', 'C11'], enforce='EncoderBuffer_EncodeBytes', replace=['vec_char_append'])
+J('fmt.varint_layout', 'h_fmt_varint_layout', ['C05', 'C17'], unwind=18, unwind_reason='recursion depth <= 6, 16-byte vector model', native=True)
+J('fmt.bitseq_gate', 'h_fmt_bitseq_gate', ['C05'], unwind=14, unwind_reason='varint recursion <= 11, 12-byte buffer', native=True)
